@@ -278,6 +278,9 @@ class BaseReader:
 
     def _read_data(self, offset, n, /, use_dask=False, **kwargs):
         """Read n samples from current read position into array-like."""
+        # ``chunks`` is for the Dask array built here, not for ``_read_array``
+        chunks = kwargs.pop("chunks", None)
+
         if use_dask:
             import dask
             import dask.array as da
@@ -291,7 +294,7 @@ class BaseReader:
             # Dask cannot pick "auto" chunks for an empty array
             auto = "auto" if n else -1
             default_chunks = (-1,) + (auto,) * len(self.sample_shape)
-            z = z.rechunk(kwargs.get("chunks", default_chunks))
+            z = z.rechunk(default_chunks if chunks is None else chunks)
         else:
             z = self._read_array(offset, n, **kwargs)
 
